@@ -90,6 +90,11 @@ def machine_factory(ctx):
             self.step("other_data", factor=factor, path=path)
 
         @precondition(lambda self: self.ready)
+        @rule(which=st.sampled_from(["yr_deg", "h", "names"]))
+        def user_pack(self, which):
+            self.step("user_pack", which=which)
+
+        @precondition(lambda self: self.ready)
         @rule()
         def pickle_helper(self):
             self.step("pickle_helper")
@@ -222,6 +227,16 @@ def machine_factory(ctx):
                 outs.append((idx.tobytes(), np.asarray(out["P"].value).tobytes()))
             if outs[0] != outs[1]:
                 raise Violation("equal seeds: shuffled rejection sampling depends on n_batches")
+            # the same library handed over as an object (cache file written by the sampler) must behave like the file
+            rg = RecordingGenerator(np.random.PCG64(seed))
+            joker = tj.TheJoker(self.prior, rng=rg)
+            with ctx.sut("rejection_sample(object, randomize_prior_order=True)"):
+                out, lls = joker.rejection_sample(self.data, self.lib, randomize_prior_order=True, n_prior_samples=n_prior,
+                                                  n_batches=n_batches, return_all_logprobs=True)
+            idx = np.asarray(rg.calls("choice")[0]["out"])
+            if (idx.tobytes(), np.asarray(out["P"].value).tobytes()) != outs[1]:
+                raise Violation("equal seeds: a library passed as an object and the same library passed as a file give "
+                                "different shuffled subsets / accepted samples", object_order=idx[:10])
             self.paths_used.add(("shuffled", min(n_batches, 3)))
             self.kinds.append("rej_shuffled")
 
@@ -237,6 +252,19 @@ def machine_factory(ctx):
                                 "than a fresh TheJoker", got=got[:6], want=want[:6], history=[l[0] for l in self.log][-8:])
             self.stressed = True
             self.kinds.append("other_data")
+
+        def do_user_pack(self, which):
+            """the user packs a table in units of their own choice (public API): later results must not change"""
+            import astropy.units as u
+            with ctx.sut("JokerSamples.pack with user units"):
+                if which == "yr_deg":
+                    self.lib.pack(units={"P": u.yr, "omega": u.deg, "M0": u.deg})
+                elif which == "h":
+                    self.lib.pack(units={"P": u.hour}, nonlinear_only=False)
+                else:
+                    self.lib.pack(names=["M0", "P"], units={"M0": u.deg})
+            self.stressed = True
+            self.kinds.append("user_pack")
 
         def do_pickle_helper(self):
             with ctx.sut("pickling the helper"):
